@@ -8,8 +8,10 @@ INLINE = ['b', 'i', 'em', 'span', 'strong', 'code', 'u', 'small']
 CONTAINERS = ['div', 'blockquote', 'section', 'article', 'header', 'footer', 'main', 'aside']
 BLOCK = ['p', 'div', 'h1', 'h2', 'h3', 'blockquote', 'section', 'article', 'pre', 'header', 'footer']
 HREFS = ['/a', '/b', 'http://x.test/1', 'http://x.test/2?q=1&amp;r=2', '#frag', 'http://web.archive.org/web/20190101000000/http://x.test/',
-         'http://s.test/p;jsessionid=ABC123', 'mailto:a@b.c']
-IMGS = ['i.png', 'j.jpg', 'http://x.test/k.gif']
+         'http://s.test/p;jsessionid=ABC123', 'mailto:a@b.c',
+         # legal in an href, rejected or rewritten by URL libraries: unbalanced / non-IP brackets, empty query or fragment, embedded blanks
+         'http://[server]/x', 'http://[::1/x', '//[cdn]/a', 'http://x.test/search?', 'http://x.test/data/#', 'http://x.test/a b\tc', 'http://x.test?Q=A']
+IMGS = ['i.png', 'j.jpg', 'http://x.test/k.gif', '//[cdn]/a.png', 'http://[img]/p.png?']
 
 
 class Gen:
